@@ -48,6 +48,9 @@ def expressible(cfg, layout, carrier):
           "bare_modules": len(cfg) == 1 and bare and len(c0["streams"]) == 1}[layout]
     if carrier == "xr_vars" and layout != "bare_streams":
         ok = False
+    if layout == "bare_streams" and carrier != "xr_vars" and ok and any(s["id"] in ("qartod", "argo", "axds") for s in c0["streams"]):
+        # only its depth tells such a mapping from a module mapping: some test must carry parameters
+        ok = any(e["params"] not in ("empty", "null") for s in c0["streams"] for e in s["entries"])
     if carrier in OBJECT_CARRIERS:
         known = any((e["module"], e["test"]) in KNOWN for c in cfg for s in c["streams"] for e in s["entries"])
         ok = ok and layout == "contexts" and known and (carrier != "mixed_list" or len(cfg) >= 2)
@@ -251,6 +254,11 @@ def load_event(cfg, layout, carrier, wd, n):
     try:
         src = make_source(cfg, layout, carrier, wd, n)
     except Exception as ex:  # noqa: BLE001
+        if carrier in OBJECT_CARRIERS:
+            # these carriers are built with the library's own constructors (ContextConfig, Config): a failure there is
+            # a failure of the load, not of the harness
+            e["exc"] = "building the %s: %s" % (carrier, type(ex).__name__)
+            return e
         raise tlc.MachineryError("cannot serialise %r/%r: %r" % (layout, carrier, ex))
     try:
         c = Config(src)
@@ -295,7 +303,7 @@ def rand_cfg(r):
     seen_ctx = []
     for k in range(nctx):
         streams = []
-        for sid in r.sample(["a", "b.c", "temp", "_x"], r.choice([1, 1, 2, 3])):
+        for sid in r.sample(["a", "b.c", "temp", "_x", "argo"], r.choice([1, 1, 2, 3])):
             ents, seen = [], set()
             for _ in range(r.choice([1, 1, 2, 3, 4])):
                 m, t, p = r.choice(known) if r.random() < 0.8 else r.choice(unknown)
